@@ -160,6 +160,22 @@ static void laws(unsigned long long& unit)
 {
 	// uniform and Gauss on a stratified grid
 	int m = mc::thorough() ? 4096 : 512;
+	// How do the two elementary samplers use the generator? If one call consumes one uniform, the sample is a deterministic map of it and the law
+	// is right exactly when that map is the quantile function of u or of 1-u (checked sharply below). Any other scheme (Box-Muller, polar, ratio of
+	// uniforms ...) is judged by the distribution of its outputs over the complete grid of its first two uniforms (coarser, but independent of the scheme).
+	int gauss_words = 0, uniform_words = 0;
+	bool gauss_increasing = true, uniform_increasing = true;
+	{
+		std::mt19937 g = mc::scripted_uniforms({0.3L, 0.6L, 0.2L, 0.9L, 0.55L, 0.45L});
+		double z = Sample_Gauss(g, 0.0, 1.0);
+		gauss_words		 = mc::position_of(g);
+		gauss_increasing = z < 0;
+		std::mt19937 h = mc::scripted_uniforms({0.3L, 0.6L, 0.2L, 0.9L, 0.55L, 0.45L});
+		double x = Sample_Uniform(h, 0.0, 1.0);
+		uniform_words	   = mc::position_of(h);
+		uniform_increasing = x < 0.5;
+		if(mc::shard0()) mc::note("Sample_Gauss consumes " + std::to_string(gauss_words) + " generator words per sample, Sample_Uniform " + std::to_string(uniform_words) + (gauss_words == 2 ? " (one uniform each: sharp quantile oracle)" : " (not a map of one uniform: law judged on the enumerated output distribution)"));
+	}
 	if(mc::mine(unit++))
 		for(auto ab : std::vector<std::pair<double, double>>{{0, 1}, {-1, 3}, {5, 5.001}})
 			for(int i = 0; i < m; i++)
@@ -168,27 +184,58 @@ static void laws(unsigned long long& unit)
 				std::mt19937 g = mc::scripted_uniforms({u});
 				double x = Sample_Uniform(g, ab.first, ab.second), uc = mc::canonical_of(u);
 				g_cases++;
-				if(!mc::same_bits(x, uc * (ab.second - ab.first) + ab.first)) fail("laws", "Sample_Uniform(" + mc::dec(ab.first) + "," + mc::dec(ab.second) + "),u=" + mc::dec((double)u), "uniform_not_affine_in_u", "returned " + mc::dec(x));
-				if(!(x >= ab.first && x <= ab.second) || mc::position_of(g) != 2) fail("laws", "Sample_Uniform(" + mc::dec(ab.first) + "," + mc::dec(ab.second) + "),u=" + mc::dec((double)u), "outside_support_or_wrong_consumption", "x = " + mc::dec(x) + ", words consumed " + std::to_string(mc::position_of(g)));
+				double ue = uniform_increasing ? uc : 1 - uc, want = ue * (ab.second - ab.first) + ab.first;
+				if(uniform_words == 2 && !(std::fabs(x - want) <= 4 * mc::U_ * (std::fabs(ab.first) + std::fabs(ab.second)))) fail("laws", "Sample_Uniform(" + mc::dec(ab.first) + "," + mc::dec(ab.second) + "),u=" + mc::dec((double)u), "uniform_not_affine_in_u", "returned " + mc::dec(x) + ", the affine image of the uniform is " + mc::dec(want));
+				if(!(x >= ab.first && x <= ab.second) || mc::position_of(g) != uniform_words) fail("laws", "Sample_Uniform(" + mc::dec(ab.first) + "," + mc::dec(ab.second) + "),u=" + mc::dec((double)u), "outside_support_or_wrong_consumption", "x = " + mc::dec(x) + ", words consumed " + std::to_string(mc::position_of(g)));
 			}
-	if(mc::mine(unit++))
+	if(gauss_words != 2 && mc::mine(unit++))
+	{
+		// scheme-independent: the outputs over the complete m2 x m2 grid of the first two uniforms, as a distribution
+		const int m2 = 64;
+		for(auto ms : std::vector<std::pair<double, double>>{{0, 1}, {1, 2}, {-40, 1e-3}})
+		{
+			std::vector<double> zs;
+			bool died = false;
+			for(int i = 0; i < m2 && !died; i++)
+				for(int j = 0; j < m2; j++)
+				{
+					std::mt19937 g = mc::scripted_uniforms({(i + 0.5L) / m2, (j + 0.5L) / m2, 0.41L, 0.73L, 0.17L, 0.89L, 0.31L, 0.67L});
+					double z = 0;
+					if(mc::library_exits([&]() { z = Sample_Gauss(g, ms.first, ms.second); })) { fail("laws", "Sample_Gauss(" + mc::dec(ms.first) + "," + mc::dec(ms.second) + "),grid", "terminated_process", "ended the process"); died = true; break; }
+					zs.push_back(z);
+					g_cases++;
+				}
+			if(died) continue;
+			std::sort(zs.begin(), zs.end());
+			double D = 0;
+			for(size_t k = 0; k < zs.size(); k++)
+			{
+				double F = (double)Phi(((ld)zs[k] - ms.first) / ms.second);
+				D = std::max({D, std::fabs(F - (double)k / zs.size()), std::fabs(F - (double)(k + 1) / zs.size())});
+			}
+			if(!(D <= 4.0 / m2)) fail("laws", "Sample_Gauss(" + mc::dec(ms.first) + "," + mc::dec(ms.second) + "),grid", "enumerated_law_differs", "Kolmogorov distance " + mc::dec(D) + " between the outputs over the " + std::to_string(m2) + "x" + std::to_string(m2) + " grid of the first two uniforms and the normal law");
+			else mc::maxi("gauss_enumerated_law_distance_over_allowed", D / (4.0 / m2));
+		}
+	}
+	if(gauss_words == 2 && mc::mine(unit++))
 		for(auto ms : std::vector<std::pair<double, double>>{{0, 1}, {1, 2}, {-40, 1e-3}})
 			for(int i = 0; i < m; i++)
 			{
-				ld u = (i + 0.5L) / m;
+				ld u = gauss_increasing ? (i + 0.5L) / m : 1 - (i + 0.5L) / m;
 				std::mt19937 g = mc::scripted_uniforms({u});
 				double z = 0;
 				std::string key = "Sample_Gauss(" + mc::dec(ms.first) + "," + mc::dec(ms.second) + "),u=" + mc::dec((double)u);
 				if(mc::library_exits([&]() { z = Sample_Gauss(g, ms.first, ms.second); })) { fail("laws", key, "terminated_process", "ended the process"); continue; }
 				g_cases++;
 				ld p = Phi(((ld)z - ms.first) / ms.second);
+				if(!gauss_increasing) p = 1 - p;	// the map u -> quantile(1-u) is as good a sampler as u -> quantile(u)
 				// Kolmogorov distance between the law induced by the grid and the target: quantile accurate to sqrt(2)*1e-4 standard deviations
 				if(!(fabsl(p - u) <= 0.3989423L * sqrtl(2.0L) * 1e-4L * 1.001L)) fail("laws", key, "gauss_quantile_off", "Phi((z-mu)/sigma) = " + mc::dec((double)p) + " for u = " + mc::dec((double)u));
 				else mc::maxi("gauss_cdf_error_over_allowed", (double)(fabsl(p - u) / (0.3989423L * sqrtl(2.0L) * 1e-4L)), key);
 			}
 	// Gaussian tails, down to the smallest uniforms a generator can deliver (2^-53, and 0 itself): judged in z, against the quantile of the
 	// probability the sampler actually forms, p = 2u-1 in binary64 (1+p is exact there), within the sqrt(2)*1e-4 of Inv_Erf
-	if(mc::mine(unit++))
+	if(gauss_words == 2 && gauss_increasing && mc::mine(unit++))
 		for(ld u : {0.0L, 1.1102230246251565e-16L, 1e-15L, 1e-12L, 1e-9L, 1e-7L, 3e-7L, 1e-6L, 3e-6L, 1e-5L, 1e-4L, 1 - 1e-4L, 1 - 1e-5L, 1 - 3e-6L, 1 - 1e-6L, 1 - 3e-7L, 1 - 1e-7L, 1 - 1e-9L, 1 - 1e-12L, 1 - 1e-15L, 1 - 1.1102230246251565e-16L})
 		{
 			std::mt19937 g = mc::scripted_uniforms({u});
@@ -627,6 +674,7 @@ int main(int argc, char** argv)
 		if(Sample_Uniform(g, 0, 1) != 0.25 || std::fabs(Sample_Uniform(g, 0, 1) - 0.123456789) > 1e-15) { fprintf(stderr, "FATAL: scripted generator does not deliver the scripted uniforms\n"); return 3; }
 	}
 	mc::bound("rule", "the caller's std::mt19937 is scripted (state loaded through operator>> with inverted tempering) so that the uniforms each sampler sees are enumerated on complete grids; interleavings: every sequence of sampler letters up to the depth bound from two seeds, every further letter compared with a pristine process; Metropolis: kernel checked rule by rule on a grid of (start, proposal, acceptance) uniforms and all (sample,thinning,burn_in) triples of the stated grid; state = generator state after a history, transition = one sampler call");
+	mc::bound("assumptions", "the rule-by-rule law oracles assume the algorithm families in the code: Knuth's product rule for Sample_Poisson, accept-the-first-pair-under-the-density for rejection sampling, inversion of the CDF for Inverse_Transform_Sampling, random-walk Metropolis with Gaussian proposals (start, proposal, acceptance drawn in that order); a change of family needs a new oracle ;; Sample_Uniform and Sample_Gauss are classified at run time by the generator words one sample consumes (one uniform: sharp quantile oracle for u or 1-u; otherwise the enumerated output distribution over the grid of the first two uniforms)");
 	unsigned long long unit = 0;
 	interleavings(unit);
 	laws(unit);
